@@ -99,6 +99,13 @@ def templates():
     add("Outer", C.Outer, [S("a", (2,)), S("b", (3,))], lambda o: C.Outer(o[0], o[1]))
     add("Inner", C.Inner, [S("a", (2,)), S("b", (2,))], lambda o: C.Inner(o[0], o[1]))
     add("Dot", C.Dot, [S("A", (2, 3)), S("b", (3,))], lambda o: C.Dot(o[0], o[1]))
+    # both operands carry a free index of their own, with different extents, listed in either creation order (I was created before J)
+    add("Outer[fi I,J]", C.Outer, [S("a", (2,), (I,), (2,)), S("b", (3,), (J,), (3,))], lambda o: C.Outer(o[0], o[1]))
+    add("Outer[fi J,I]", C.Outer, [S("a", (2,), (J,), (3,)), S("b", (3,), (I,), (2,))], lambda o: C.Outer(o[0], o[1]))
+    add("Inner[fi J,I]", C.Inner, [S("a", (2,), (J,), (3,)), S("b", (2,), (I,), (2,))], lambda o: C.Inner(o[0], o[1]))
+    add("Inner[fi I,J]", C.Inner, [S("a", (2,), (I,), (2,)), S("b", (2,), (J,), (3,))], lambda o: C.Inner(o[0], o[1]))
+    add("Dot[fi J,I]", C.Dot, [S("A", (2, 3), (J,), (3,)), S("b", (3,), (I,), (2,))], lambda o: C.Dot(o[0], o[1]))
+    add("Cross[fi J,I]", C.Cross, [S("a", (3,), (J,), (3,)), S("b", (3,), (I,), (2,))], lambda o: C.Cross(o[0], o[1]))
     add("Perp", C.Perp, [S("a", (2,))], lambda o: C.Perp(o[0]))
     add("Cross", C.Cross, [S("a", (3,)), S("b", (3,))], lambda o: C.Cross(o[0], o[1]))
     add("Trace", C.Trace, [S("A", (2, 2))], lambda o: C.Trace(o[0]))
